@@ -92,12 +92,12 @@ META = {
   "technique": "Coq proofs over an executable exact-rational model + monitor-based correspondence (vm_compute) against the Go code",
 }
 KNOWN = [
- {"property": "X05", "id": "X05-F1", "status": "fixed", "commit": "88709a2",
+ {"property": "X05", "id": "X05-F1", "status": "fixed", "commit": "cfaf3cb",
   "what": "NewRankCalculator ignored its options: WithRanker / WithRankPositionally were never applied (NewRankCalculator(WithRankPositionally()); Accumulate(1); Calculate() = {1:100} instead of {1:0})",
-  "line": "fixed: property=X05 88709a2 NewRankCalculator ignored its options (WithRanker / WithRankPositionally never applied)",
+  "line": "fixed: property=X05 cfaf3cb NewRankCalculator ignored its options (WithRanker / WithRankPositionally never applied)",
   "signature": "^calc:1$"},
- {"property": "X05", "id": "X05-F3", "status": "fixed", "commit": "1ad8c6b",
+ {"property": "X05", "id": "X05-F3", "status": "fixed", "commit": "272bc04",
   "what": "RankCalculator.Accumulate read the field r.entries without r.mux while Reset replaces it under the write lock: data race (Go race detector)",
-  "line": "fixed: property=X05 1ad8c6b data race between Accumulate (unlocked read of r.entries) and Reset",
+  "line": "fixed: property=X05 272bc04 data race between Accumulate (unlocked read of r.entries) and Reset",
   "signature": "^race:RankCalculator\\.Accumulate\\|RankCalculator\\.Reset$"},
 ]
